@@ -26,11 +26,13 @@ const (
 	YChanSend
 	YChanRecv
 	YWaitGroup
+	YTimer
+	YPoll
 	nYKinds
 )
 
 var YieldNames = [nYKinds]string{"", "Lock", "Locked", "Unlock", "RLock", "RLocked", "RUnlock",
-	"OnceEnter", "OnceExit", "PoolGet", "PoolGot", "PoolPut", "FP", "TaskEnd", "Block", "OpBoundary", "Atomic", "Go", "ChanSend", "ChanRecv", "WaitGroup"}
+	"OnceEnter", "OnceExit", "PoolGet", "PoolGot", "PoolPut", "FP", "TaskEnd", "Block", "OpBoundary", "Atomic", "Go", "ChanSend", "ChanRecv", "WaitGroup", "Timer", "Poll"}
 
 // Scheduling policies (explore mode only; replay reads concrete choices).
 const (
@@ -59,6 +61,13 @@ type task struct {
 	blocked *uintptr // what the task waits for (nil: runnable)
 	held    int      // sim-level locks currently held by this task
 	prio    int      // PCT priority
+
+	// a task that waits for a channel the simulator does not own (a context's Done
+	// channel) is blocked on pollKey with a probe: whoever is at a scheduling point
+	// looks for it (without consuming anything) and releases it when the channel is ready
+	probing bool
+	pcases  [16]SelCase // what it waits for: any of these
+	npcases int
 }
 
 // Config is the per-run configuration the harness hands to Begin.
@@ -112,6 +121,11 @@ type Stats struct {
 	ClockReads   int64 // reads of the simulated clock by the library
 	ClockJumps   int64 // … that saw a non-canonical step
 	ChanOps      int64
+	Timers       int64 // timers the library armed
+	TimerFires   int64 // … that fired
+	TimerJumps   int64 // … after the clock jumped to their deadline because no task could run
+	Stalls       int64 // scheduling points that cost simulated time (a stalled process) while timers were armed
+	Polls        int64 // waits for a channel the simulator does not own (a context's Done channel)
 	FPHits       int64
 	FPPanics     int64
 	EventHash    uint64
@@ -130,6 +144,8 @@ type runtimeState struct {
 	join      *stdsync.WaitGroup // fresh per Run: a run that ended in a fatal verdict leaves its tasks parked
 	st        Stats
 	verdict   int
+	nprobers  int // tasks blocked with a probe
+	idleFires int // timers fired in a row while no task could run
 	pctChange [8]int64
 	npct      int
 
@@ -262,6 +278,33 @@ func runnable(list *[MaxTasks]int, exclude int) int {
 	return n
 }
 
+var pollKey uintptr
+
+// wakeProbers releases the tasks whose channel has become ready. The look reads
+// the channel's state only (peek.go): no channel operation, no happens-before edge
+// between the task that closed or fed the channel and the task that happens to look.
+//
+//go:norace
+func wakeProbers() {
+	if R.nprobers == 0 {
+		return
+	}
+	for i := 0; i < R.ntasks; i++ {
+		t := &R.tasks[i]
+		if !t.probing || t.done || t.blocked != &pollKey {
+			continue
+		}
+		for k := 0; k < t.npcases; k++ {
+			if caseReady(&t.pcases[k]) {
+				t.blocked = nil
+				t.probing = false
+				R.nprobers--
+				break
+			}
+		}
+	}
+}
+
 // pickOther chooses among the n runnable tasks other than the current one when
 // the current one cannot continue (blocked or finished).
 //
@@ -353,8 +396,26 @@ func switchTo(me, n int) {
 
 //go:norace
 func step() {
+	R.idleFires = 0
+	stepCount()
+}
+
+// idleFire counts a timer fired because no task could run: a ticker that keeps
+// time moving while everybody waits for something else is a deadlock.
+//
+//go:norace
+func idleFire() {
+	R.idleFires++
+	if R.idleFires > 100000 {
+		fatal(VDeadlock, "all live tasks are blocked (only a ticker keeps firing)")
+	}
+	stepCount()
+}
+
+//go:norace
+func stepCount() {
 	R.st.Steps++
-	if R.st.Steps > int64(R.cfg.StepCap) || R.tape.S[KSched].Over || R.tape.S[KPool].Over || R.tape.S[KMap].Over || R.tape.S[KAddr].Over || R.tape.S[KFault].Over {
+	if R.st.Steps > int64(R.cfg.StepCap) {
 		fatal(VStepCap, "step cap exceeded")
 	}
 }
@@ -369,6 +430,11 @@ func Yield(site int, obj uint64) {
 	step()
 	R.st.Yields[site]++
 	event(site, obj)
+	if timersPending() {
+		stall()
+		fireDue()
+	}
+	wakeProbers()
 	me := R.cur
 	n := decide(site)
 	if n != me {
@@ -389,12 +455,69 @@ func Block(key *uintptr) {
 	event(YBlock, 0)
 	me := R.cur
 	R.tasks[me].blocked = key
+	if timersPending() {
+		fireDue()
+	}
+	wakeProbers()
 	var list [MaxTasks]int
 	n := runnable(&list, me)
-	if n == 0 {
-		fatal(VDeadlock, "all live tasks are blocked")
+	for n == 0 && R.tasks[me].blocked != nil {
+		// nobody can run: time passes until the next timer fires
+		if !fireNext() {
+			if R.nprobers > 0 {
+				fatal(VDeadlock, "all live tasks are blocked or wait for a channel that no task of the simulation will feed or close")
+			}
+			fatal(VDeadlock, "all live tasks are blocked")
+		}
+		wakeProbers()
+		n = runnable(&list, me)
+	}
+	if R.tasks[me].blocked == nil {
+		return // a timer that was due released this very task
 	}
 	switchTo(me, pickOther(&list, n))
+}
+
+// pollWait parks the current task until one of cases - at least one of them on a
+// channel the simulator does not own - is ready. Such a channel changes only through
+// what tasks of the simulation do (cancel functions, simulated timers), and every
+// scheduling point of every task looks; when nobody can run, time passes until the
+// next timer fires, and with no timer left the run is a deadlock.
+func pollWait(cases ...SelCase) {
+	if quietNow() {
+		fatal(VHarnessBug, "harness oracle waits for a channel")
+	}
+	setProbe(cases)
+	Block(&pollKey)
+	clearProbe()
+}
+
+//go:norace
+func setProbe(cases []SelCase) {
+	t := &R.tasks[R.cur]
+	R.st.Polls++
+	t.npcases = 0
+	for _, c := range cases {
+		if t.npcases < len(t.pcases) {
+			t.pcases[t.npcases] = c
+			t.npcases++
+		}
+	}
+	t.probing = true
+	R.nprobers++
+}
+
+//go:norace
+func clearProbe() {
+	t := &R.tasks[R.cur]
+	if t.probing { // released by something else than a successful look
+		t.probing = false
+		R.nprobers--
+	}
+	for k := 0; k < t.npcases; k++ {
+		t.pcases[k] = SelCase{}
+	}
+	t.npcases = 0
 }
 
 //go:norace
@@ -413,9 +536,10 @@ func Unblock(key *uintptr) {
 func taskExit(me int) {
 	R.tasks[me].done = true
 	event(YTaskEnd, 0)
+	wakeProbers()
 	var list [MaxTasks]int
 	n := runnable(&list, me)
-	if n == 0 {
+	for n == 0 {
 		alive := false
 		for i := 0; i < R.ntasks; i++ {
 			if !R.tasks[i].done {
@@ -423,6 +547,11 @@ func taskExit(me int) {
 			}
 		}
 		if alive {
+			if fireNext() {
+				wakeProbers()
+				n = runnable(&list, me)
+				continue
+			}
 			fatal(VDeadlock, "remaining tasks are blocked on a primitive nobody will release")
 		}
 		raceOff()
@@ -467,6 +596,9 @@ func Begin(cfg Config) {
 	resetAddrs()
 	resetChans()
 	resetClock()
+	resetTimers()
+	R.nprobers = 0
+	R.idleFires = 0
 	R.cpus = 0
 	resetRand()
 }
@@ -536,9 +668,17 @@ func Go(f func()) {
 		go f()
 		return
 	}
+	if !spawn(f) {
+		fatal(VHarnessBug, "more than MaxTasks simulated tasks")
+	}
+	Yield(YGo, 0)
+}
+
+// spawn makes f a new simulated task (runnable, not yet running).
+func spawn(f func()) bool {
 	id := spawnSlot()
 	if id < 0 {
-		fatal(VHarnessBug, "more than MaxTasks simulated tasks")
+		return false
 	}
 	join := R.join
 	join.Add(1)
@@ -550,7 +690,7 @@ func Go(f func()) {
 		join.Done()
 		taskExit(id)
 	}()
-	Yield(YGo, uint64(id))
+	return true
 }
 
 //go:norace
